@@ -31,6 +31,15 @@ static void *buildStress(flatcc_builder_t *Bd, unsigned v, size_t *size)
     if (v & 2) { EvoB_Root_anys_start(Bd); for (i = 0; i < n; ++i) EvoB_Root_anys_push(Bd, EvoB_Any_as_NONE()); EvoB_Root_anys_end(Bd); }
     if (v & 4) { uint8_t *b; EvoB_Root_blob_start(Bd); b = EvoB_Root_blob_extend(Bd, n * 3 + (v >> 3) % 3); for (i = 0; b && i < n * 3 + (v >> 3) % 3; ++i) b[i] = (uint8_t)(i * 7 + v); EvoB_Root_blob_end(Bd); }
     if (v & 8) { EvoB_Root_names_start(Bd); for (i = 0; i < n; ++i) EvoB_Root_names_push_create_str(Bd, i % 5 ? "" : "\x01\x02\"\\\n"); EvoB_Root_names_end(Bd); }
+    /* strings that are nothing but escapes: runs of control characters / quotes / backslashes of every length 0..96
+     * (the only flush tests inside such a run are the ones print_string makes between two escapes) */
+    if (v & 32) { char run[200]; unsigned m = (v >> 6) & 3; static const char pat[4][4] = { "\x01\x01\x01", "\"\"\"", "\\\n\\", "\x1f\x7f\t" };
+        EvoB_Root_tags_start(Bd);
+        for (i = 0; i < n; ++i) run[i] = pat[m][i % 3];
+        run[n] = 0; EvoB_Root_tags_push_create_str(Bd, run);
+        run[n / 2] = 0; EvoB_Root_tags_push_create_str(Bd, run);
+        run[n / 2] = 'a'; EvoB_Root_tags_push_create_str(Bd, run);
+        EvoB_Root_tags_end(Bd); }
     if (v & 16) { EvoB_Root_colors_start(Bd); for (i = 0; i < n; ++i) EvoB_Root_colors_push_create(Bd, (EvoB_Color_enum_t)(i % 11)); EvoB_Root_colors_end(Bd); }
     EvoB_Root_end_as_root(Bd);
     return flatcc_builder_finalize_aligned_buffer(Bd, size);
